@@ -775,6 +775,13 @@ fn run_case(line: &str, budget: u64) -> String {
 }
 
 fn main() {
+  // deep synchronous recursion (retry over a failing cold source, re-entrant emits) must hit the
+  // operation budget, not the end of the stack
+  let t = std::thread::Builder::new().stack_size(4 << 30).spawn(real_main).expect("spawn");
+  let _ = t.join();
+}
+
+fn real_main() {
   std::panic::set_hook(Box::new(|_| {}));
   let budget: u64 = std::env::var("RXH_BUDGET").ok().and_then(|s| s.parse().ok()).unwrap_or(200_000);
   let stdin = std::io::stdin();
